@@ -307,3 +307,106 @@ Proof. vm_compute. split; reflexivity. Qed.
 """),
     ],
 }
+
+TEXT_IMPORTS = """From Coq Require Import String.
+From Coq Require Import List NArith Bool Arith.
+From SV Require Import Bytes Lexer Text TextFacts.
+Import ListNotations.
+Local Open Scope nat_scope.
+"""
+
+SPEC["C06"] = {
+    "header": """C06 — every script the filter factory generates is valid and self-sufficient.
+
+   What is proved here is the part of C06 that no test can settle: caller-supplied values can never
+   change the structure of the script.  Model: factory/Text.v ([fquote] = FiltersSet.__quote,
+   [quote_list] = __quote_list, [quote_if_necessary]) and sieve/Lexer.v (the lexer of the parser that
+   reads the script back).  Proofs: factory/TextFacts.v.  For EVERY byte string v and every text that
+   follows it, the quoted form of v is exactly one string token, and a quoted list is bracket, string
+   tokens separated by commas, bracket; the token's content unescapes to v.
+   The per-kind assembly of __create_filter (which tags, which require) is not modelled: validity,
+   strict validity and require coverage of whole generated scripts are checked on the implementation
+   with the strict validator, and skeleton independence is checked by re-lexing with the model lexer.
+   Values that start with a double or single quote are taken as already quoted by the factory
+   (quote_if_necessary, documented behaviour pinned by the suite) and are outside the claim.""",
+    "imports": TEXT_IMPORTS,
+    "theorems": [
+        ("C06_value_is_one_string_token", "TextFacts.next_token_quote",
+         "the quoted form of ANY value lexes as exactly one string token, whatever follows"),
+        ("C06_string_rule_length", "TextFacts.scan_string_quote", "the string scanner consumes exactly the quoted form"),
+        ("C06_content_is_the_value", "TextFacts.unescape_escape", "unescaping the token's content gives back the value: nothing added, nothing lost"),
+        ("C06_list_token_structure", "TextFacts.next_n_quote_list",
+         "a quoted list of ANY values: bracket, quoted items separated by commas, bracket; then the lexer continues with what follows"),
+        ("raw", r'''(* a hostile value stays inside its string literal (computed on the model lexer) *)
+Example C06_injection_attempt :
+  next_n 5 0 (quote_list [bs "a""] { discard; } #"; bs "b\"] ++ bs " { keep; }") =
+  Some ([(TLeftBracket, [91%N]); (TString, quote (bs "a""] { discard; } #")); (TComma, [44%N]);
+         (TString, quote (bs "b\")); (TRightBracket, [93%N])],
+        length (quote_list [bs "a""] { discard; } #"; bs "b\"]), bs " { keep; }").
+Proof. vm_compute. reflexivity. Qed.
+'''),
+    ],
+}
+
+SPEC["C11"] = {
+    "header": """C11 — a filter set survives being saved as a script and loaded back.
+
+   Proved here (factory/TextFacts.v over factory/Text.v and sieve/Lexer.v): the marker comments.
+   The line FiltersSet.tosieve writes before a filter ([pretext ++ text], LF) is ONE hash-comment token
+   ending before the line feed; the parser stores it stripped ([stored_comment]); from_parser_result
+   ([recover]) gives back exactly the name / description, for every marker that starts with a
+   non-blank byte, and every text that does not end in a blank and does not contain the marker.
+   The editing operations preserve "enabled = not wrapped" in every reachable state (C12), which is
+   what reloading the enabled flag rests on.  Tree equality of reloaded filters rests on C04 and is
+   exercised on the implementation (render -> parse -> from_parser_result -> render fixed point) over
+   generated histories, names, descriptions and marker prefixes.""",
+    "imports": TEXT_IMPORTS,
+    "theorems": [
+        ("C11_comment_is_one_token", "TextFacts.scan_hash_line",
+         "the marker line is one hash-comment token that ends before the line feed"),
+        ("C11_recovered_exactly", "TextFacts.recover_stored",
+         "name / description recovered exactly from the stored comment"),
+        ("raw", r'''Example C11_recover_example :
+  recover (bs "# Filter: ") (stored_comment (bs "# Filter: ") (bs "caf" ++ [195%N; 169%N] ++ bs " #1 ""x"""))
+  = Some (bs "caf" ++ [195%N; 169%N] ++ bs " #1 ""x""").
+Proof. vm_compute. reflexivity. Qed.
+
+(* the hypotheses are needed: a name that ends in a blank loses it, a name containing the marker loses it *)
+Example C11_trailing_blank_lost :
+  recover (bs "# Filter: ") (stored_comment (bs "# Filter: ") (bs "x ")) = Some (bs "x").
+Proof. vm_compute. reflexivity. Qed.
+Example C11_marker_inside_lost :
+  recover (bs "#F ") (stored_comment (bs "#F ") (bs "a #F b")) = Some (bs "a b").
+Proof. vm_compute. reflexivity. Qed.
+'''),
+    ],
+}
+
+SPEC["C19"] = {
+    "header": """C19 — what you put into a filter is what you read back.
+
+   Proved here (factory/TextFacts.v over factory/Text.v): the text-level core of the read-back path.
+   Conditions built with lists are stored as the rendered list [quote_list vs] and read back with
+   tools.to_list ([to_list]: drop the brackets, split at every comma, strip the quotes).  That inverts
+   the quoting exactly on values free of commas, double quotes and backslashes (C19_to_list_inverts)
+   and provably not beyond (C19_comma_refuted, C19_quote_refuted: the known findings of C19).
+   The per-test args_as_tuple code, the negation folding of get_filter_conditions and the reload path
+   are exercised on the implementation for all supported forms (created by addfilter, by updatefilter on
+   an enabled and on a disabled filter; read back on the original set, while disabled, after enabling
+   again, and on the reloaded set).""",
+    "imports": TEXT_IMPORTS,
+    "theorems": [
+        ("C19_to_list_inverts", "TextFacts.to_list_quote_list",
+         "reading a rendered list back gives the values, for values free of commas, quotes and backslashes"),
+        ("C19_single_value", "TextFacts.strip_dq_quote_plain", "a single quoted value is read back by stripping the quotes"),
+        ("raw", r'''Example C19_comma_refuted : to_list (quote_list [bs "a,b"]) = [bs "a"; bs "b"].
+Proof. vm_compute. reflexivity. Qed.
+
+Example C19_quote_refuted : to_list (quote_list [bs "say ""hi"""]) <> [bs "say ""hi"""].
+Proof. vm_compute. discriminate. Qed.
+
+Example C19_blanks_survive : to_list (quote_list [bs " free "; bs "winner "]) = [bs " free "; bs "winner "].
+Proof. vm_compute. reflexivity. Qed.
+'''),
+    ],
+}
